@@ -140,28 +140,59 @@ Qed.
 Lemma chunks_length : forall {A : Type} m n (l : list A), length (chunks m n l) = n.
 Proof. intros A m. induction n as [|n IH]; intro l; cbn; [reflexivity|]. now rewrite IH. Qed.
 
+(** nested lists cannot show the dimensions after an empty one: [[]] for shape (0, n) *)
+Fixpoint trunc (shape : list nat) : list nat :=
+  match shape with
+  | [] => []
+  | 0 :: _ => [0]
+  | n :: sh => n :: trunc sh
+  end.
+
+Lemma tens_shape_of_flat_trunc : forall shape flat,
+  length flat = prod_list shape -> tens_shape (tens_of_flat shape flat) = Some (trunc shape).
+Proof.
+  induction shape as [|n sh IH]; intros flat Hlen.
+  - cbn in Hlen. destruct flat as [|x [|y flat]]; cbn in Hlen; try discriminate. reflexivity.
+  - assert (prod_list (n :: sh) = n * prod_list sh) as Hp by reflexivity. rewrite Hp in Hlen.
+    pose proof (chunks_lengths (prod_list sh) n flat Hlen) as Hc.
+    pose proof (chunks_length (prod_list sh) n flat) as Hcl.
+    cbn [tens_of_flat]. destruct n as [|n].
+    + cbn. reflexivity.
+    + destruct (chunks (prod_list sh) (S n) flat) as [|c cs] eqn:Ec; [cbn in Hcl; lia|].
+      inversion Hc as [|? ? Hc0 Hcs]; subst. cbn [map tens_shape trunc].
+      rewrite (IH c Hc0).
+      assert ((fix go (l : list tens) : bool :=
+                 match l with
+                 | [] => true
+                 | y :: l'' => match tens_shape y with Some s' => nats_eqb (trunc sh) s' | None => false end && go l''
+                 end) (map (tens_of_flat sh) cs) = true) as ->.
+      { apply tens_shape_all_list. apply Forall_forall. intros t Ht. apply in_map_iff in Ht as [c' [<- Hc']].
+        apply IH. rewrite Forall_forall in Hcs. now apply Hcs. }
+      cbn [length] in *. rewrite map_length. now inversion Hcl.
+Qed.
+
+Lemma trunc_pos : forall shape, Forall (fun n => 0 < n) shape -> trunc shape = shape.
+Proof.
+  induction shape as [|n sh IH]; intro H; [reflexivity|]. inversion H; subst. destruct n; [lia|]. cbn. now rewrite IH.
+Qed.
+
+Lemma prod_trunc_zero : forall shape, prod_list shape = 0 -> prod_list (trunc shape) = 0.
+Proof.
+  induction shape as [|n sh IH]; intro H; [discriminate|]. destruct n; [reflexivity|].
+  change (prod_list (S n :: sh)) with (S n * prod_list sh) in H. cbn [trunc].
+  change (prod_list (S n :: trunc sh)) with (S n * prod_list (trunc sh)). rewrite IH; lia.
+Qed.
+
+Lemma prod_nonzero_pos : forall shape, prod_list shape <> 0 -> Forall (fun n => 0 < n) shape.
+Proof.
+  induction shape as [|n sh IH]; intro H; [constructor|].
+  change (prod_list (n :: sh)) with (n * prod_list sh) in H. constructor; [lia|]. apply IH. lia.
+Qed.
+
 Lemma tens_shape_of_flat : forall shape flat,
   Forall (fun n => 0 < n) shape -> length flat = prod_list shape ->
   tens_shape (tens_of_flat shape flat) = Some shape.
-Proof.
-  induction shape as [|n sh IH]; intros flat Hpos Hlen.
-  - cbn in Hlen. destruct flat as [|x [|y flat]]; cbn in Hlen; try discriminate. reflexivity.
-  - inversion Hpos as [|? ? Hn Hpos']; subst.
-    assert (prod_list (n :: sh) = n * prod_list sh) as Hp by reflexivity. rewrite Hp in Hlen.
-    pose proof (chunks_lengths (prod_list sh) n flat Hlen) as Hc.
-    pose proof (chunks_length (prod_list sh) n flat) as Hcl.
-    cbn [tens_of_flat]. destruct (chunks (prod_list sh) n flat) as [|c cs] eqn:Ec; [cbn in Hcl; lia|].
-    inversion Hc as [|? ? Hc0 Hcs]; subst. cbn [map tens_shape].
-    rewrite (IH c Hpos' Hc0).
-    assert ((fix go (l : list tens) : bool :=
-               match l with
-               | [] => true
-               | y :: l'' => match tens_shape y with Some s' => nats_eqb sh s' | None => false end && go l''
-               end) (map (tens_of_flat sh) cs) = true) as ->.
-    { apply tens_shape_all_list. apply Forall_forall. intros t Ht. apply in_map_iff in Ht as [c' [<- Hc']].
-      apply IH; [assumption|]. rewrite Forall_forall in Hcs. now apply Hcs. }
-    cbn [length] in *. now rewrite map_length.
-Qed.
+Proof. intros shape flat Hpos Hlen. rewrite tens_shape_of_flat_trunc by assumption. now rewrite trunc_pos. Qed.
 
 Definition id_spec (t : tens) : wspec := mkWS t [] None (NFin 0%Q).
 
@@ -267,16 +298,17 @@ Lemma json_to_factor_finite : forall tbl doms name jw,
   json_to_factor tbl doms name (JDict [(k_function, JStr k_finite); (k_weights, jw)]) =
   (do el <- match lab_get tbl name with Some l => Ok l | None => Err KeyErr end;
    do ds <- mapM (dom_lookup doms) (el_type el);
-   do w <- json_to_weights_model jw;
+   do w0 <- json_to_weights_model jw;
+   let w := if Nat.eqb (prod_list (pt_shape w0)) 0 then zeros_pt (map domain_size ds) else w0 in
    if negb (nats_eqb (pt_shape w) (map domain_size ds)) then Err ValueErr
    else if negb (el_term el) then Err ValueErr else Ok (FFinite w)).
 Proof. reflexivity. Qed.
 
-Lemma pt_to_dense_shape : forall pt t, pt_to_dense pt = Ok t -> Forall (fun n => 0 < n) (pt_shape pt) ->
-  tens_shape t = Some (pt_shape pt).
+Lemma pt_to_dense_flat : forall pt t, pt_to_dense pt = Ok t ->
+  exists flat, t = tens_of_flat (pt_shape pt) flat /\ length flat = prod_list (pt_shape pt).
 Proof.
-  intros pt t H Hpos. unfold pt_to_dense in H. destruct (negb _); [discriminate|]. inversion H; subst t. clear H.
-  apply tens_shape_of_flat; [assumption|].
+  intros pt t H. unfold pt_to_dense in H. destruct (negb _); [discriminate|]. inversion H; subst t. clear H.
+  eexists. split; [reflexivity|].
   set (os := project_strides (pt_vaxes pt) (cstrides (pt_shape pt))).
   change (fold_left _ (all_indices (pt_pshape pt)) (repeat (pt_default pt) (prod_list (pt_shape pt))))
     with (fold_left (scatter_step (fun p => fst os + dot_index (snd os) p) (phys_at pt))
@@ -290,11 +322,40 @@ Proof.
   cbn [length seq combine map fst snd ax_numel]. f_equal. apply IH.
 Qed.
 
+Lemma paxes_axes : forall shape, flat_map ax_axes (paxes_of shape) = seq 0 (length shape).
+Proof.
+  intro shape. unfold paxes_of. rewrite (paxes_as_map shape 0). generalize (seq 0 (length shape)).
+  induction l as [|k l IH]; [reflexivity|]. cbn. now rewrite IH.
+Qed.
+
+(** a tensor whose virtual axes are its physical axes can always be densified *)
+Lemma dense_paxes_ok : forall t nex shape d, exists r, pt_to_dense (mkPT t nex shape (paxes_of shape) d) = Ok r.
+Proof.
+  intros t nex shape d. unfold pt_to_dense.
+  match goal with |- context [negb ?c] => assert (c = true) as Hc end.
+  { assert (forall k, In k (map fst (snd (project_strides (paxes_of shape) (cstrides (map ax_numel (paxes_of shape))))))
+                      <-> k < length shape) as Hkeys.
+    { intro k. rewrite project_strides_keys; [|now rewrite cstrides_length, map_length].
+      rewrite paxes_axes, in_seq. lia. }
+    cbn [pt_vaxes pt_pshape]. unfold pt_shape. cbn [pt_vaxes]. apply andb_true_iff. split.
+    - apply forallb_combine_seq_intro. intros k Hk. cbn [fst snd Nat.add]. apply orb_true_iff. left.
+      apply existsb_eqb_In. now apply Hkeys.
+    - apply forallb_forall. intros k Hk. apply Nat.ltb_lt. now apply Hkeys. }
+  rewrite Hc. cbn [negb]. eexists. reflexivity.
+Qed.
+
+Lemma zeros_pt_paxes : forall shape,
+  zeros_pt shape = mkPT (tens_of_flat shape (repeat (NFin 0%Q) (prod_list shape))) 0 shape (paxes_of shape) (NFin 0%Q).
+Proof. reflexivity. Qed.
+
+Lemma in_bounds_prod : forall idx sh, in_bounds idx sh -> prod_list sh <> 0.
+Proof. intros idx sh H. pose proof (flat_index_lt sh idx H). lia. Qed.
+
+(** the invariants [FiniteFactor] enforces: the weights can be densified and have the shape of the domains *)
 Definition finite_ok (ds : list domain) (f : factor) : Prop :=
   match f with
   | FConstant _ => True
-  | FFinite pt => (exists t, pt_to_dense pt = Ok t) /\ pt_shape pt = map domain_size ds /\
-                  Forall (fun n => 0 < n) (pt_shape pt)
+  | FFinite pt => (exists t, pt_to_dense pt = Ok t) /\ pt_shape pt = map domain_size ds
   end.
 
 Lemma factor_roundtrip : forall tbl doms name f el ds,
@@ -305,25 +366,41 @@ Proof.
   intros tbl doms name f el ds Hl Ht Hd Hok. destruct f as [w|pt].
   - eexists. exists (FConstant w). split; [reflexivity|]. split; [|reflexivity].
     rewrite json_to_factor_const, Hl. cbn [bind]. rewrite Hd. cbn [bind]. now rewrite Ht.
-  - destruct Hok as [[t Hdense] [Hshape Hpos]].
-    pose proof (pt_to_dense_shape pt t Hdense Hpos) as Hts.
-    destruct (dense_identity t (pt_shape pt) Hts) as [t2 [Ht2 Heq]].
-    eexists. exists (FFinite (mkPT t 0 (pt_shape pt) (paxes_of (pt_shape pt)) (NFin 0%Q))). split; [|split].
-    + unfold factor_to_json, weights_to_json_model. rewrite Hdense. reflexivity.
-    + rewrite json_to_factor_finite, Hl. cbn [bind]. rewrite Hd. cbn [bind].
-      rewrite (json_to_weights_dense t (pt_shape pt) Hts). cbn [bind].
-      assert (pt_shape (mkPT t 0 (pt_shape pt) (paxes_of (pt_shape pt)) (NFin 0%Q)) = pt_shape pt) as Hps.
-      { unfold pt_shape at 1. cbn [pt_vaxes]. apply paxes_numel. }
-      rewrite Hps, Hshape, (proj2 (nats_eqb_eq _ _) eq_refl). cbn [negb]. now rewrite Ht.
-    + cbn. split.
-      * unfold pt_shape at 1. cbn [pt_vaxes]. apply paxes_numel.
-      * exists t, t2. repeat split; assumption.
+  - destruct Hok as [[t Hdense] Hshape].
+    destruct (pt_to_dense_flat pt t Hdense) as [flat [Et Hlen]].
+    pose proof (tens_shape_of_flat_trunc (pt_shape pt) flat Hlen) as Hts. rewrite <- Et in Hts.
+    assert (forall sh, pt_shape (mkPT t 0 sh (paxes_of sh) (NFin 0%Q)) = sh) as Hps.
+    { intro sh. unfold pt_shape. cbn [pt_vaxes]. apply paxes_numel. }
+    destruct (Nat.eq_dec (prod_list (pt_shape pt)) 0) as [Hz|Hnz].
+    + (* an empty dimension: the weights are restored as zeros of the right shape; no entry to compare *)
+      destruct (dense_paxes_ok (tens_of_flat (pt_shape pt) (repeat (NFin 0%Q) (prod_list (pt_shape pt)))) 0 (pt_shape pt) (NFin 0%Q))
+        as [r Hr].
+      eexists. exists (FFinite (zeros_pt (pt_shape pt))). split; [|split].
+      * unfold factor_to_json, weights_to_json_model. rewrite Hdense. reflexivity.
+      * rewrite json_to_factor_finite, Hl. cbn [bind]. rewrite Hd. cbn [bind].
+        rewrite (json_to_weights_dense t (trunc (pt_shape pt)) Hts). cbn [bind]. rewrite Hps.
+        rewrite (prod_trunc_zero _ Hz). cbn [Nat.eqb]. rewrite <- Hshape.
+        assert (pt_shape (zeros_pt (pt_shape pt)) = pt_shape pt) as ->.
+        { rewrite zeros_pt_paxes. unfold pt_shape at 1. cbn [pt_vaxes]. apply paxes_numel. }
+        rewrite (proj2 (nats_eqb_eq _ _) eq_refl). cbn [negb]. now rewrite Ht.
+      * unfold factor_same. split.
+        -- rewrite zeros_pt_paxes. unfold pt_shape at 1. cbn [pt_vaxes]. apply paxes_numel.
+        -- exists t, r. repeat split; [assumption|now rewrite zeros_pt_paxes|].
+           intros idx Hidx. exfalso. now apply (in_bounds_prod idx _ Hidx).
+    + pose proof (prod_nonzero_pos _ Hnz) as Hpos. rewrite (trunc_pos _ Hpos) in Hts.
+      destruct (dense_identity t (pt_shape pt) Hts) as [t2 [Ht2 Heq]].
+      eexists. exists (FFinite (mkPT t 0 (pt_shape pt) (paxes_of (pt_shape pt)) (NFin 0%Q))). split; [|split].
+      * unfold factor_to_json, weights_to_json_model. rewrite Hdense. reflexivity.
+      * rewrite json_to_factor_finite, Hl. cbn [bind]. rewrite Hd. cbn [bind].
+        rewrite (json_to_weights_dense t (pt_shape pt) Hts). cbn [bind]. rewrite Hps.
+        rewrite (proj2 (Nat.eqb_neq _ _) Hnz). rewrite Hps, Hshape, (proj2 (nats_eqb_eq _ _) eq_refl). cbn [negb]. now rewrite Ht.
+      * cbn. split; [apply Hps|]. exists t, t2. repeat split; assumption.
 Qed.
 
 Definition jfac (kf : str * factor) : res (str * json) := do j <- factor_to_json (snd kf); Ok (fst kf, j).
 
-(** every factor is bound to a registered terminal whose node labels have domains, with weights of the
-    right shape that can be densified; no dimension is empty (F21) *)
+(** the invariants of [add_factor] / [FiniteFactor]: every factor is bound to a registered terminal
+    whose node labels have domains, with weights of the right shape that can be densified *)
 Definition factor_wf (tbl : list elabel) (doms : list (str * domain)) (kf : str * factor) : Prop :=
   exists el ds, lab_get tbl (fst kf) = Some el /\ el_term el = true /\
                 mapM (dom_lookup doms) (el_type el) = Ok ds /\ finite_ok ds (snd kf).
@@ -355,16 +432,19 @@ Lemma json_to_fgg_step : forall c jg itd itf,
 Proof. reflexivity. Qed.
 
 (** * the FGG round trip *)
+(** a well-formed FGG: a well-formed grammar whose factors satisfy the invariants of [add_factor] *)
+Definition wf_fgg (g : fgg) : Prop :=
+  wf_hrg (f_hrg g) = true /\ Forall (factor_wf (h_labels (f_hrg g)) (f_domains g)) (f_factors g).
+
 Theorem fgg_roundtrip : forall (dec : nat -> str) (g : fgg) (c : nat),
-  wf_hrg (f_hrg g) = true ->
-  Forall (factor_wf (h_labels (f_hrg g)) (f_domains g)) (f_factors g) ->
+  wf_fgg g ->
   exists j g',
     fgg_to_json_model dec g = Ok j /\ json_to_fgg_model c j = Ok g' /\
     hrg_iso (f_hrg g) (f_hrg g') /\
     f_domains g' = f_domains g /\
     Forall2 (fun kf kf' => fst kf' = fst kf /\ factor_same (snd kf) (snd kf')) (f_factors g) (f_factors g').
 Proof.
-  intros dec g c Hwf Hfac.
+  intros dec g c [Hwf Hfac].
   destruct (roundtrip_iso dec (f_hrg g) c Hwf) as [jg [h [Hj [Hh Hiso]]]].
   destruct (wf_hrg_facts _ Hwf) as [Hnd [Hstart [Hnt [Hkeys [Hok Hrules]]]]].
   pose proof Hiso as [Hs [[_ [HndT HT]] HR]].
@@ -395,25 +475,28 @@ Proof.
   - exact Hsamef.
 Qed.
 
-(** the hypotheses are satisfiable: S -> (n : N) with t(n), N a range domain of size 2, t a finite
-    factor stored with a sum axis (second cell unbacked: default), and a second terminal u that
-    occurs in no rule but has a (constant) factor -- the situation of the former defect F20 *)
+(** the hypothesis is satisfiable: S -> (n : N) with t(n), N a range domain of size 2, t a finite
+    factor stored with a sum axis (second cell unbacked: default); a terminal u that occurs in no
+    rule but has a constant factor (the situation of the former defect F20); and a terminal z over
+    (E, N) with E empty, whose weights have shape (0, 2) (the situation of the former defect F21) *)
 Definition ex_S : elabel := mkEL [83] [] false.
 Definition ex_t : elabel := mkEL [116] [[78]] true.
 Definition ex_u : elabel := mkEL [117] [[78]; [78]] true.
+Definition ex_z : elabel := mkEL [122] [[69]; [78]] true.
 Definition ex_n : node := mkNode [78] (Implicit 4).
 Definition ex_fgg : fgg :=
-  mkFGG (mkHRG [ex_S; ex_t; ex_u] ex_S [(ex_S, [mkRule ex_S (mkGraph [ex_n] [mkEdge ex_t [ex_n] (Implicit 5)] [])])])
-        [([78], DRange 2)]
+  mkFGG (mkHRG [ex_S; ex_t; ex_u; ex_z] ex_S [(ex_S, [mkRule ex_S (mkGraph [ex_n] [mkEdge ex_t [ex_n] (Implicit 5)] [])])])
+        [([78], DRange 2); ([69], DFinite [])]
         [([116], FFinite (mkPT (TL [TS (NFin 3%Q)]) 0 [1] [ASum 0 (APhys 0 1) 1] NPInf));
-         ([117], FConstant (JNum NPInf))].
+         ([117], FConstant (JNum NPInf));
+         ([122], FFinite (mkPT (TL []) 0 [0; 2] [APhys 0 0; APhys 1 2] (NFin 0%Q)))].
 
-Example fgg_roundtrip_ex :
-  wf_hrg (f_hrg ex_fgg) = true /\
-  Forall (factor_wf (h_labels (f_hrg ex_fgg)) (f_domains ex_fgg)) (f_factors ex_fgg).
+Example fgg_roundtrip_ex : wf_fgg ex_fgg.
 Proof.
-  split; [reflexivity|]. constructor; [|constructor; [|constructor]].
+  split; [reflexivity|]. constructor; [|constructor; [|constructor; [|constructor]]].
   - exists ex_t, [DRange 2]. split; [reflexivity|]. split; [reflexivity|]. split; [reflexivity|].
-    split; [eexists; vm_compute; reflexivity|]. split; [reflexivity|]. repeat constructor.
+    split; [eexists; vm_compute; reflexivity|reflexivity].
   - exists ex_u, [DRange 2; DRange 2]. split; [reflexivity|]. split; [reflexivity|]. split; [reflexivity|]. exact I.
+  - exists ex_z, [DFinite []; DRange 2]. split; [reflexivity|]. split; [reflexivity|]. split; [reflexivity|].
+    split; [eexists; vm_compute; reflexivity|reflexivity].
 Qed.
